@@ -57,7 +57,9 @@ def methOut (m : MethodCfg) : Sexp :=
     mkList "EnumMap" (m.enumMap.map (fun (a, b) => mkList "e" [strS a, strS b])),
     mkList "Transformers" (m.transformers.map (fun (a, b) => mkList "t" [strS a, strS b])),
     mkList "RawFieldSettings" (m.rawFieldSettings.map strS),
-    mkList "UpdateParam" [strS m.updateParam], mkList "Contexts" (m.contexts.map strS)]
+    mkList "UpdateParam" [strS m.updateParam], mkList "Contexts" (m.contexts.map strS),
+    mkList "Functions" ((m.fields.filter (fun (_, f) => !f.function.isEmpty)).map (fun (n, f) => mkList "fn" [strS n, strS f.function])),
+    mkList "Constructor" [strS m.ctor]]
 
 /-- `(resolve id (vars b) (iface "N") (cwd "/w") (procwd "/x") (pkg "p/q") (pkgname "q") (varfile "f.gen.go")
      (rxbad "pat"...) (cli ..) (conv ..) (meth ..))` -/
